@@ -19,7 +19,9 @@ REQUIRED_THEOREMS = [
 ]
 RULE = ("a case = one program made of mutually disjoint flow scripts x one interleaving of the flows' host operations "
         "(all interleavings of two flows with up to 3+3 operations in the quick tier), optionally with save/load and "
-        "switch-away-and-back at every point; each flow's transcript is compared with its solo run; non-trivial when "
+        "switch-away-and-back at every point, or ending with the removal of the flow that is current (which must then "
+        "be gone from the save, and creating it again must equal creating a flow that never existed); each flow's "
+        "transcript is compared with its solo run; non-trivial when "
         "both flows produced text and at least one made a choice; distinct by program + interleaving")
 ASSUMPTIONS = ["flow scripts are disjoint in variables and knots and do not read the turn index or random numbers "
                "(the generator guarantees it; meta.flow_members is checked)"]
